@@ -52,6 +52,10 @@ class Ctl(object):
         self.stall_marker = None   # a delivery program that is going to outlive its timeout says so by creating this file
 
     def log(self, **kw):
+        # a scenario that produces events without end (a queue that makes bounces of bounces for ever) is stopped here, long
+        # before it has filled the memory: real scenarios log a few hundred events
+        if len(self.ev) >= 50000:
+            raise Watchdog()
         self.ev.append(kw)
 
     def sid(self, raw):
